@@ -197,6 +197,7 @@ class Arr2(Val):
     kwargs: dict = field(default_factory=dict)
     node: object = None
     rows: dict = field(default_factory=dict)  # key(level NF) -> Vec: rows written with a constant level index
+    cols: dict = field(default_factory=dict)  # column index -> value stored by arr[:, j] = v (every row gets element i of v)
 
 
 @dataclass
